@@ -13,7 +13,7 @@ DescVerdict(e) ==
   ELSE IF e.es_ttml # IsTtmlEs(t, b) THEN "ttml-es"
   ELSE IF e.is_dovi # IsDovi(t, b) THEN "dovi-registration"
   ELSE IF e.dv_codec # DvCodec(t, b) THEN "dolby-vision-codec"
-  ELSE IF ~e.dv_codec_same THEN "dolby-vision-codec-depends-on-the-codec-string-passed-in"
+  ELSE IF ~e.dv_codec_same THEN "dolby-vision-codec-depends-on-the-codec-string-passed-in-or-on-calls-running-at-the-same-time"
   ELSE IF e.is_lang # (t = TagLanguage) \/ e.is_maxbr # (t = TagMaxBitrate) \/ e.is_ttml # (t = TagExtension) THEN "tag-test"
   ELSE IF e.tag_got # t THEN "tag"
   ELSE ""
